@@ -217,7 +217,7 @@ func txnconcExec(ops []string) (dops []string, res []string) {
 			final = strconv.Itoa(sum)
 			return nil
 		})
-		db.Close()
+		closeWatched(db, "txnconc suite")
 		db.VerifStopOracle()
 		os.RemoveAll(dir)
 		sort.Slice(all, func(i, j int) bool { return all[i].beginSeq < all[j].beginSeq })
